@@ -5,7 +5,7 @@
    Layer A: the algebra of one local update.  Statements only. *)
 From Coq Require Import List Arith ZArith.
 From PTN Require Import Tree.RTree Tree.Nav Tree.UpdatePath Tree.CachePath Tree.Enum Tree.EnumProofs
-     Sched.TDVP Sched.TDVPProofs Sched.TDVPMore Sched.TDVPFresh Sched.TDVPBounded.
+     Sched.TDVP Sched.TDVPProofs Sched.TDVPMore Sched.TDVPFresh Sched.TDVPBounded Sched.TDVPFreshU.
 Import ListNotations.
 
 (* ---- both variants run on every tree (first order: also a single node) ------------------ *)
@@ -45,6 +45,13 @@ Theorem C06_schedule_ok_bounded_9 : forall t, In t (trees_upto 9) -> 2 <= size t
   (exists tr, trace2 t = Some tr /\ sched_ok t tr).
 Proof. intros t H1 H2. destruct (cache_fresh_bounded_9 t H1 H2) as [A [B _]]. exact (conj A B). Qed.
 Print Assumptions C06_schedule_ok_bounded_9.
+
+(* ... and the UNIVERSAL statement (every tree with unique identifiers; Sched/TDVPFreshU.v) *)
+Theorem C06_schedule_ok : forall t, NoDup (ids t) -> 2 <= size t ->
+  (exists tr, trace1 t = Some tr /\ sched_ok t tr) /\
+  (exists tr, trace2 t = Some tr /\ sched_ok t tr).
+Proof. intros t H1 H2. exact (conj (trace1_sched_ok t H1 H2) (trace2_sched_ok t H1 H2)). Qed.
+Print Assumptions C06_schedule_ok.
 
 (* sched_ok unfolded: the step ends with the centre on the first node of the sweep *)
 Theorem C06_sched_ok_meaning : forall t tr, sched_ok t tr ->
